@@ -41,6 +41,8 @@ ASSUMPTIONS = [
 
 def generate(seed, index, tier):
     rng = scenarios.derive_rng(seed, ID, index)
+    if index % 25 == 24:
+        return _gen_homonym(rng)
     mode = 'hinted' if rng.random() < 0.3 else 'written'
     ops = None
     if mode == 'hinted':
@@ -56,6 +58,37 @@ def generate(seed, index, tier):
     scn['mode'] = mode
     scn['hashseed'] = rng.choice([0, 0, 1, 2])
     return scn
+
+
+def _gen_homonym(rng):
+    """Relations added between models that share their class name across
+    two apps (or to the model itself): Django names the M2M through columns
+    from_<model>_id / to_<model>_id whenever the two lower-cased model names
+    are equal, whatever the app."""
+    intf = lambda n: {'name': n, 'kind': 'Integer', 'attrs': {'null': True}}
+    name = rng.choice(['Item', 'Node'])
+    other = 'Part'
+    vb = [{'name': name, 'fields': [intf('a')], 'meta': {}},
+          {'name': other, 'fields': [intf('a')], 'meta': {}}]
+    va = [{'name': name, 'fields': [intf('a')], 'meta': {}}]
+    muts = []
+    n = rng.choice([1, 1, 2])
+    targets = ['vb.' + name, 'vb.' + name, 'va.' + name, 'vb.' + other]
+    for i in range(n):
+        kind = rng.choice(['ManyToMany', 'ManyToMany', 'ForeignKey'])
+        f = {'name': 'r%d' % (i + 1), 'kind': kind, 'attrs': {},
+             'to': rng.choice(targets)}
+        if kind == 'ForeignKey':
+            f['attrs']['null'] = True
+        muts.append({'op': 'AddField', 'model': name, 'field': f})
+    project = {'apps': {'vb': {'v0': vb, 'steps': []},
+                        'va': {'v0': va, 'steps': [{'evos': [
+                            {'label': spec.evo_label(0),
+                             'mutations': muts}]}]}},
+               'order': ['vb', 'va'], 'databases': ['default']}
+    mode = 'hinted' if rng.random() < 0.3 else 'written'
+    return {'project': project, 'rows': {}, 'cfg': {}, 'mode': mode,
+            'hashseed': rng.choice([0, 1]), 'homonym': True}
 
 
 def touched_models(project, state0, state1):
